@@ -25,6 +25,7 @@ class Program:
                 self.traits[k] = v
         self.inlined = []
         self.removed_helpers = []
+        self.renamed_fields = []
         self.raw_fns = {}
         self.inline_sites = []
         self.helper_bodies = {}
